@@ -323,6 +323,54 @@ MUTANTS = [
      "            fs::write(path, formatted_contents)\n                .with_context(|| format!(\"could not write to {}\", path.display()))?;\n        }",
      "        }\n        fs::write(path, formatted_contents)\n            .with_context(|| format!(\"could not write to {}\", path.display()))?;",
      "write-not-guarded-by-difference"),
+    ("ec-stdin-pseudo-name", "C20", "src/cli/config.rs",
+     'PathBuf::from("*.lua")', 'PathBuf::from("stdin")', "editorconfig-path-not-a-file from literal"),
+    ("ec-file-parent-dir", "C20", "src/cli/config.rs",
+     "editorconfig::parse(Config::default(), path)", "editorconfig::parse(Config::default(), parent_path)",
+     "editorconfig-path-not-a-file"),
+    ("check-verdict-equal-shortcut", "C18", "src/cli/main.rs",
+     """    if opt.check {
+        let diff = create_diff(
+            opt,
+            &contents,""", """    if opt.check {
+        if contents.len() == formatted_contents.len() {
+            return Ok(FormatResult::Complete);
+        }
+        let diff = create_diff(
+            opt,
+            &contents,""", "check-verdict-without-diff result=Complete"),
+    ("check-verdict-stdin-some-complete", "C13", "src/cli/main.rs",
+     """        let diff = create_diff(opt, &input, &formatted_contents, "stdin")
+            .context("failed to create diff")?;
+
+        match diff {
+            Some(diff) => Ok(FormatResult::Diff(diff)),""", """        let diff = create_diff(opt, &input, &formatted_contents, "stdin")
+            .context("failed to create diff")?;
+
+        match diff {
+            Some(diff) if diff.is_empty() => Ok(FormatResult::Complete),
+            Some(diff) => Ok(FormatResult::Diff(diff)),""", "check-verdict-without-diff result=Complete"),
+    ("interp-literal-trimmed", "C04", "src/formatters/general.rs",
+     """        TokenType::InterpolatedString { literal, kind } => TokenType::InterpolatedString {
+            literal: literal.to_owned(),""", """        TokenType::InterpolatedString { literal, kind } => TokenType::InterpolatedString {
+            literal: literal.replace("\\\\z", "").into(),""", "interpolated-literal-rewritten"),
+    ("sort-kind-gated-arm-dropped", "C12", "src/sort_requires.rs",
+     """        #[cfg(feature = "luau")]
+        Expression::TypeAssertion { expression, .. } => get_expression_kind(expression),
+""", "", "gated-arm-removed=TypeAssertion"),
+    ("read-file-lossy", "C17", "src/cli/main.rs",
+     """        fs::read_to_string(path).with_context(|| format!("failed to read {}", path.display()))?;""",
+     """        fs::read(path).map(|b| String::from_utf8_lossy(&b).into_owned()).with_context(|| format!("failed to read {}", path.display()))?;""",
+     "lossy-input-decoding"),
+    ("once-rehang-formatted-item", "C07", "src/formatters/assignment.rs",
+     """                    output_expr.push(formatted.map(|_| {
+                        let expression =
+                            hang_expression(ctx, original, shape, calculate_hang_level(original));""",
+     """                    output_expr.push(formatted.map(|value| {
+                        let _ = original;
+                        let expression =
+                            hang_expression(ctx, &value, shape, calculate_hang_level(&value));""",
+     "formatted-node-formatted-again"),
 ]
 
 
